@@ -586,11 +586,17 @@ fn mixed_products(mon: &mut Monitor) {
             cmp(&mut c, "Affine3A * Mat4", 4, &f(&(a * mb).to_cols_array()), &fa, &fb, e32, &inp);
             cmp(&mut c, "Mat4 * Affine3A", 4, &f(&(ma * b).to_cols_array()), &fa, &fb, e32, &inp);
             cmp(&mut c, "Mat4::from(Affine3A * Affine3A)", 4, &f(&Mat4::from(a * b).to_cols_array()), &fa, &fb, e32, &inp);
+            // composition through the iterator folds and the assigning operator keeps the operand order
+            cmp(&mut c, "Product<&Affine3A>", 4, &f(&Mat4::from([a, b].iter().product::<Affine3A>()).to_cols_array()), &fa, &fb, e32, &inp);
+            cmp(&mut c, "Affine3A *= Affine3A", 4, &f(&Mat4::from({ let mut x = a; x *= b; x }).to_cols_array()), &fa, &fb, e32, &inp);
+            cmp(&mut c, "Product<&Mat4>", 4, &f(&[ma, mb].iter().product::<Mat4>().to_cols_array()), &fa, &fb, e32, &inp);
             let (da, db) = (a.as_daffine3(), b.as_daffine3());
             let (dma, dmb) = (DMat4::from(da), DMat4::from(db));
             cmp(&mut c, "DAffine3 * DMat4", 4, &(da * dmb).to_cols_array(), &fa, &fb, e64, &inp);
             cmp(&mut c, "DMat4 * DAffine3", 4, &(dma * db).to_cols_array(), &fa, &fb, e64, &inp);
             cmp(&mut c, "DMat4::from(DAffine3 * DAffine3)", 4, &DMat4::from(da * db).to_cols_array(), &fa, &fb, e64, &inp);
+            cmp(&mut c, "Product<&DAffine3>", 4, &DMat4::from([da, db].iter().product::<DAffine3>()).to_cols_array(), &fa, &fb, e64, &inp);
+            cmp(&mut c, "DAffine3 *= DAffine3", 4, &DMat4::from({ let mut x = da; x *= db; x }).to_cols_array(), &fa, &fb, e64, &inp);
             cmp(&mut c, "DMat4 * DMat4 (from affine)", 4, &(dma * dmb).to_cols_array(), &fa, &fb, e64, &inp);
             // Mat3A / Mat3 views of the linear part
             let (l3a, l3b) = (Mat3::from_cols_array(&core::array::from_fn(|i| sa.lin[i] as f32)), Mat3::from_cols_array(&core::array::from_fn(|i| sb.lin[i] as f32)));
@@ -616,11 +622,15 @@ fn mixed_products(mon: &mut Monitor) {
             cmp(&mut c, "Mat3A * Affine2", 3, &f(&(mpa * q).to_cols_array()), &fp, &fq, e32, &inp2);
             cmp(&mut c, "Mat3::from(Affine2 * Affine2)", 3, &f(&Mat3::from(p * q).to_cols_array()), &fp, &fq, e32, &inp2);
             cmp(&mut c, "Mat3A::from(Affine2 * Affine2)", 3, &f(&Mat3A::from(p * q).to_cols_array()), &fp, &fq, e32, &inp2);
+            cmp(&mut c, "Product<&Affine2>", 3, &f(&Mat3::from([p, q].iter().product::<Affine2>()).to_cols_array()), &fp, &fq, e32, &inp2);
+            cmp(&mut c, "Affine2 *= Affine2", 3, &f(&Mat3::from({ let mut x = p; x *= q; x }).to_cols_array()), &fp, &fq, e32, &inp2);
             let (dp, dq) = (p.as_daffine2(), q.as_daffine2());
             let (dmp, dmq) = (DMat3::from(dp), DMat3::from(dq));
             cmp(&mut c, "DAffine2 * DMat3", 3, &(dp * dmq).to_cols_array(), &fp, &fq, e64, &inp2);
             cmp(&mut c, "DMat3 * DAffine2", 3, &(dmp * dq).to_cols_array(), &fp, &fq, e64, &inp2);
             cmp(&mut c, "DMat3::from(DAffine2 * DAffine2)", 3, &DMat3::from(dp * dq).to_cols_array(), &fp, &fq, e64, &inp2);
+            cmp(&mut c, "Product<&DAffine2>", 3, &DMat3::from([dp, dq].iter().product::<DAffine2>()).to_cols_array(), &fp, &fq, e64, &inp2);
+            cmp(&mut c, "DAffine2 *= DAffine2", 3, &DMat3::from({ let mut x = dp; x *= dq; x }).to_cols_array(), &fp, &fq, e64, &inp2);
             // 2-D inverse: Affine2 inverse converts to the Mat3 inverse (compared through the action on a probe)
             let probe = Vec2::new(0.3, -1.7);
             let img = p.transform_point2(probe);
